@@ -690,7 +690,8 @@ def random_world(rng, ctype):
     return {"ctype": ctype, "objs": [d for d in O if d["id"] in seen], "roots": roots, "sw": ["random"],
             "pattern": rng.choice(["min", "max", "alt"]), "audio": rng.choice(["none", "str", "path"]),
             "cycles": rng.choice([1, 2, 3]), "place": "inside",
-            "dir": rng.choice([[], ["d1"], ["sub dir", "ünï"]]), "file": rng.choice(["a.wav", "with space.wav", "üñí ©.wav"])}
+            "dir": rng.choice([[], ["d1"], ["sub dir", "ünï"], ["site_a", "..", "shared"]]),
+            "file": rng.choice(["a.wav", "with space.wav", "üñí ©.wav"])}
 
 
 def random_worlds(rng, n):
